@@ -1108,6 +1108,8 @@ impl BigRat {
 
 	pub(crate) fn permutation<I: Interrupt>(self, rhs: Self, int: &I) -> FResult<Self> {
 		let n_factorial = self.clone().factorial(int)?;
+		// r must be a non-negative integer (`combination` rejects anything else through r!)
+		rhs.clone().apply_uint_op(|_, _| Ok(()), int)?;
 		let n_minus_r_factorial = self.add(-rhs, int)?.factorial(int)?;
 		n_factorial.div(&n_minus_r_factorial, int)
 	}
